@@ -87,7 +87,7 @@ fn classify(p: &str) -> Class {
     }
 }
 
-const TOKS: [&str; 30] = ["a", "b", ".", "|", "(", ")", "*", "+", "?", "{2}", "{1,2}", "{,}", "[", "]", "^", "$", "-", "\\b", "\\B", "\\A", "\\z", "\\d", "\\pL", "\\p{Foo}", "\\p{sc=Greek}", "(?i)", "(?:", "(?=", "*?", "&&"];
+const TOKS: [&str; 31] = ["a", "b", ".", "|", "(", ")", "*", "+", "?", "{0}", "{2}", "{1,2}", "{,}", "[", "]", "^", "$", "-", "\\b", "\\B", "\\A", "\\z", "\\d", "\\pL", "\\p{Foo}", "\\p{sc=Greek}", "(?i)", "(?:", "(?=", "*?", "&&"];
 
 fn token_string(mut k: usize, len: usize) -> String {
     let mut s = String::new();
@@ -141,6 +141,10 @@ fn contexts(h: &str, depth: usize) -> Vec<String> {
                 format!("({x})*"),
                 format!("({x})+"),
                 format!("({x})?"),
+                format!("({x}){{0}}"),
+                format!("({x}){{1}}"),
+                format!("({x}){{0,1}}"),
+                format!("({x}){{0,}}"),
                 format!("({x}){{2}}"),
                 format!("({x}){{1,2}}"),
                 format!("({x}){{2,}}"),
@@ -186,6 +190,13 @@ pub fn run(tier: Tier) -> ! {
         judge(&mut total, &format!("anchor pattern {p:?}"), &Cfg::single(vec![CPat::new(p, 0)]), ok, false, "anchor");
     }
 
+    // degenerate configurations build (uncached and through the cache)
+    for cached in [false, true] {
+        judge(&mut total, "no modes at all", &Cfg { modes: vec![] }, true, cached, "anchor");
+        judge(&mut total, "one mode without patterns", &Cfg { modes: vec![CMode { name: "M".into(), pats: vec![], transitions: vec![] }] }, true, cached, "anchor");
+        judge(&mut total, "empty pattern", &Cfg::single(vec![CPat::new("", 0)]), true, cached, "anchor");
+    }
+
     // (a) every token string of length <= L
     let l = if tier == Tier::Quick { 4 } else { 5 };
     for len in 0..=l {
@@ -203,7 +214,7 @@ pub fn run(tier: Tier) -> ! {
             merge(&mut total, a);
         }
     }
-    fams.push(json!({"family": format!("(a) every string of <= {l} tokens over the 30-token regex alphabet as a pattern"), "token_alphabet": TOKS, "exhaustive": true}));
+    fams.push(json!({"family": format!("(a) every string of <= {l} tokens over the 31-token regex alphabet as a pattern"), "token_alphabet": TOKS, "exhaustive": true}));
 
     // (b) structured: contexts x constructs x slots
     let bad = ["^", "$", "\\b", "\\B", "\\A", "\\z", "(?i)", "(?i:a)", "(?-i:a)", "(?s-i:a)", "a*?", "a+?", "a??", "a{2}?", "a{1,2}?", "(?=a)", "(?!a)", "(?<=a)", "\\p{Foo}", "\\pX", "\\p{sc=Greek}", "\\p{Greek}", "[\\p{Foo}]", "[a&&\\p{sc=Greek}]", "[a[^\\pX]]", "\\P{gc:Lu}", "(", "a)", "[a", "a{2", "*", "\\"];
@@ -214,7 +225,7 @@ pub fn run(tier: Tier) -> ! {
         for h in list {
             for (ci, c) in contexts(h, depth).into_iter().enumerate() {
                 // all slots for shallow contexts, a rotating slot deeper down (still every context)
-                if ci < 16 {
+                if ci < 20 {
                     for slot in 0..8 {
                         cases.push((c.clone(), ok, slot));
                     }
@@ -239,7 +250,7 @@ pub fn run(tier: Tier) -> ! {
     for a in accs {
         merge(&mut total, a);
     }
-    fams.push(json!({"family": format!("(b) {} unsupported/erroneous and {} supported constructs x every context of depth <= {depth} (15 wrappers per level) x slots (pattern 1/2 of mode 0/1, positive/negative lookahead of each)", bad.len(), good.len()), "cases": cases.len(), "exhaustive": true}));
+    fams.push(json!({"family": format!("(b) {} unsupported/erroneous and {} supported constructs x every context of depth <= {depth} (19 wrappers per level) x slots (pattern 1/2 of mode 0/1, positive/negative lookahead of each)", bad.len(), good.len()), "cases": cases.len(), "exhaustive": true}));
 
     // (d) long patterns: literal runs of 1..4-byte characters of every length around typical
     // buffer / message-abbreviation sizes, with a construct planted at the start, the end or nested
